@@ -23,6 +23,28 @@ fn run(case: &Case, out: &mut Out) {
         let a = &op.args;
         match op.name.as_str() {
             "consts" => out.obs(&[tn(MAX_FDS_OUT), tn(MAX_BYTES_OUT)]),
+            "bb" => {
+                // black-box tier: <scenario> <seed> -> the c10bb binary (real workers)
+                let exe = std::env::current_exe().unwrap().parent().unwrap().join("c10bb");
+                match std::process::Command::new(exe).args(a.iter().map(|t| t.to_string())).output() {
+                    Ok(o) => {
+                        let text = String::from_utf8_lossy(&o.stdout).to_string();
+                        for line in text.lines() {
+                            if let Some(v) = line.strip_prefix("viol ") {
+                                let (c, t) = v.split_once(' ').unwrap_or((v, ""));
+                                out.viol(c, t);
+                            } else if let Some(n) = line.strip_prefix("note ") {
+                                out.note(&format!("bb: {n}"));
+                            }
+                        }
+                        if !text.contains("obs done") && !text.contains("note setup-failed") {
+                            out.viol("bb-crashed", "the black-box run did not finish");
+                        }
+                    }
+                    Err(e) => out.note(&format!("invalid-case: cannot run c10bb: {e}")),
+                }
+                out.obs(&[]);
+            }
             // xfer <nh> <nt> <nc> <nu> <addr>...   (addresses in family order)
             "xfer" => {
                 let n: Vec<usize> = (0..4).map(|i| a[i].n() as usize).collect();
@@ -72,6 +94,9 @@ fn run(case: &Case, out: &mut Out) {
                 let tx = ScmSocket::new(x.as_raw_fd()).unwrap();
                 let mut rx = ScmSocket::new(y.as_raw_fd()).unwrap();
                 rx.set_blocking(false).unwrap();
+                // the lowest free descriptor number now: whatever recvmsg installs sits at or above it
+                let probe = unsafe { libc::dup(0) };
+                unsafe { libc::close(probe) };
                 let sent = tx.send_listeners(&l);
                 let obs = match sent {
                     Err(_) => vec![ts("err"), ts("send")],
@@ -103,6 +128,13 @@ fn run(case: &Case, out: &mut Out) {
                             };
                             if total <= MAX_FDS_OUT {
                                 out.viol("manifest-lost", &format!("hand-over of {} listeners (<= MAX_FDS_OUT = {}) failed on the receiving side: {} (manifest of {} bytes, receive buffer {} bytes)", total, MAX_FDS_OUT, class, manifest_len(&addrs), MAX_BYTES_OUT));
+                            }
+                            // receive_listeners does not close the descriptors the kernel already installed when
+                            // it fails: close them here so that the driver itself does not run out of descriptors
+                            for fd in probe..probe + 600 {
+                                if unsafe { libc::fcntl(fd, libc::F_GETFD) } >= 0 {
+                                    unsafe { libc::close(fd) };
+                                }
                             }
                             vec![ts("err"), ts(class)]
                         }
